@@ -273,7 +273,7 @@ DoRes(k, lst, rps, i, acc) ==
             acc2 == [acc1 EXCEPT !.kn = rn.kn, !.gn = rn.gn, !.wm = rn.wm, !.ro = rn.ro, !.mi = mi2, !.ei = ei2]
             \* a block is sent again as a whole only when the server REFUSED one of its queued members (MOVED / ASK / a retryable
             \* error reply: EXEC then discards the block); after a reply lost to a connection failure EXEC may have run, so the
-            \* block is not repeated (fix bbafe77 in /repo; BugTxResendAfterLoss = doresultfn as it was before)
+            \* block is not repeated (fix 173cee7 in /repo; BugTxResendAfterLoss = doresultfn as it was before)
             txFound == scan /\ (rp.rep # "neterr" \/ BugTxResendAfterLoss) /\ mi2 >= 1 /\ ei2 <= Len(lst) /\ IsM(lst[mi2]) /\ IsE(lst[ei2]) /\ rps[mi2].rep = "ok"
         IN  IF txFound
             THEN DoRes(k, lst, rps, i + 1, [acc2 EXCEPT !.rd = TRUE,
